@@ -4,7 +4,7 @@
    plain, aes-256-gcm, chacha20-poly1305 and aes-128-gcm; all numeric constants are the
    ones regenerated from /repo (Gen/Consts.v). *)
 From Coq Require Import NArith ZArith List.
-From Cloak Require Import Gen.Consts Model.Codec Proofs.Codec.
+From Cloak Require Import Gen.Consts Model.Crypto.CBytes Model.Codec Proofs.Codec Model.SessionLimit Proofs.SessionLimit.
 Import ListNotations.
 Local Open Scope Z_scope.
 
@@ -96,3 +96,182 @@ Theorem C04_interop :
   Ok (mkFrame sid seq closing payload).
 Proof. exact interop. Qed.
 Print Assumptions C04_interop.
+
+(* ======================================================================================== *)
+(* The size clause for a Session built with ANY configured limit (Model/SessionLimit.v:
+   make_session follows MakeSession, stream_write / stream_read_from / closing_notice follow
+   Stream.Write, Stream.ReadFrom and the notices of closeStream and Session.Close).
+   [limit_in_force L] = L when L > 0, the default otherwise (what MakeSession stores);
+   [within lim wire] = every message of [wire] is at most [lim] bytes. *)
+
+(* MakeSession: the per-frame payload maximum and the size of the pooled send buffers are
+   derived from the limit in force, the receive buffer is a constant *)
+Theorem C04_session_sizes : forall L : Z,
+  ss_limit (make_session L) = limit_in_force L /\
+  ss_sendbuf (make_session L) = limit_in_force L /\
+  ss_unit (make_session L) = limit_in_force L - mux_frameHeaderLength - mux_maxExtraLen /\
+  ss_recvbuf (make_session L) = mux_connReceiveBufferSize.
+Proof. exact make_session_fields. Qed.
+Print Assumptions C04_session_sizes.
+
+(* Every message Stream.Write hands to the connection is within the limit in force: for every
+   configured limit (any Go int), ordered and unordered, every method, key, stream id, sequence
+   number, input, every RandInt result and all random bytes. *)
+Theorem C04_session_write_within_limit :
+  forall (L : Z) (unordered : bool) (m : method) (key : list N) (sid seq : N) (input : list N) (rand : draws),
+  within (limit_in_force L)
+    (r_wire (stream_write (make_session L) unordered (payload_cipher m key) key sid seq input rand)).
+Proof. exact session_write_within_limit. Qed.
+Print Assumptions C04_session_write_within_limit.
+
+(* the same for Stream.ReadFrom, whatever the reader hands over *)
+Theorem C04_session_read_from_within_limit :
+  forall (L : Z) (m : method) (key : list N) (sid seq : N) (data : list N) (sizes : list Z) (rand : draws),
+  within (limit_in_force L)
+    (r_wire (stream_read_from (make_session L) (payload_cipher m key) key sid seq data sizes rand)).
+Proof. exact session_read_from_within_limit. Qed.
+Print Assumptions C04_session_read_from_within_limit.
+
+(* and for the closing notices of Stream.Close and Session.Close *)
+Theorem C04_session_closing_within_limit :
+  forall (L : Z) (m : method) (key : list N) (sid seq closing b : N) (filler : list N) (r : N * list N),
+  within (limit_in_force L)
+    (r_wire (closing_notice (make_session L) (payload_cipher m key) key sid seq closing b filler r)).
+Proof. exact session_closing_within_limit. Qed.
+Print Assumptions C04_session_closing_within_limit.
+
+(* A limit above frameHeaderLength + maxExtraLen (269) leaves room for a payload byte.  Then an
+   ordered Write is accepted whole; its messages decode, under the session key, to the chunks of
+   the input (each 1..maxStreamUnitWrite bytes, concatenating to the input) numbered
+   consecutively from the stream's counter; and all of them are within the limit. *)
+Theorem C04_session_write_complete :
+  forall (L : Z) (m : method) (key : list N) (sid seq : N) (input : list N) (rand : draws),
+  mux_frameHeaderLength + mux_maxExtraLen < limit_in_force L ->
+  (sid < 2 ^ 32)%N -> (seq < 2 ^ 64)%N -> admissible m key seq 0 rand ->
+  let ss := make_session L in
+  let r := stream_write ss false (payload_cipher m key) key sid seq input rand in
+  let chs := chunks_of (ss_unit ss) input in
+  r_end r = EndOk /\ r_n r = zlen input /\
+  map (decode m key) (r_wire r) = map Ok (frames_from sid seq chs) /\
+  r_seq r = seq_at seq (length chs) /\
+  concat chs = input /\
+  Forall (fun ch => 1 <= zlen ch <= ss_unit ss) chs /\
+  within (limit_in_force L) (r_wire r).
+Proof. exact session_write_complete. Qed.
+Print Assumptions C04_session_write_complete.
+
+(* Unordered sessions never split: a Write within the maximum is one message that decodes to the
+   input, a larger one is refused with io.ErrShortBuffer and nothing is sent. *)
+Theorem C04_session_write_unordered :
+  forall (L : Z) (m : method) (key : list N) (sid seq : N) (input : list N) (rand : draws),
+  (sid < 2 ^ 32)%N -> (seq < 2 ^ 64)%N -> admissible m key seq 0 rand -> input <> [] ->
+  let ss := make_session L in
+  let r := stream_write ss true (payload_cipher m key) key sid seq input rand in
+  (zlen input <= ss_unit ss ->
+     exists msg, r = mkRes [msg] (zlen input) (next_seq seq) EndOk /\
+       decode m key msg = Ok (mkFrame sid seq closing_nothing input) /\ zlen msg <= limit_in_force L) /\
+  (ss_unit ss < zlen input -> r = mkRes [] 0 seq EndShortBuffer).
+Proof. exact session_write_unordered. Qed.
+Print Assumptions C04_session_write_unordered.
+
+(* Limits too small to carry a frame.  0 < L < 269: the payload maximum is negative; an ordered
+   Write of anything panics in its slice expression, ReadFrom panics when it slices its buffer, an
+   unordered Write is refused; nothing reaches the wire. *)
+Theorem C04_session_limit_below_overhead :
+  forall (L : Z) (m : method) (key : list N) (sid seq : N) (input data : list N) (sizes : list Z) (rand : draws),
+  0 < L -> L < mux_frameHeaderLength + mux_maxExtraLen -> input <> [] ->
+  stream_write (make_session L) false (payload_cipher m key) key sid seq input rand = mkRes [] 0 seq EndPanic /\
+  stream_write (make_session L) true (payload_cipher m key) key sid seq input rand = mkRes [] 0 seq EndShortBuffer /\
+  stream_read_from (make_session L) (payload_cipher m key) key sid seq data sizes rand = mkRes [] 0 seq EndPanic.
+Proof. exact session_limit_below_overhead. Qed.
+Print Assumptions C04_session_limit_below_overhead.
+
+(* L = 269: the maximum is 0; an ordered Write cuts an empty frame which obfuscate refuses, after
+   the sequence counter has advanced; nothing reaches the wire. *)
+Theorem C04_session_limit_equal_overhead :
+  forall (L : Z) (m : method) (key : list N) (sid seq : N) (input : list N) (rand : draws),
+  L = mux_frameHeaderLength + mux_maxExtraLen -> input <> [] ->
+  stream_write (make_session L) false (payload_cipher m key) key sid seq input rand
+    = mkRes [] 0 (next_seq seq) EndObfsError /\
+  stream_write (make_session L) true (payload_cipher m key) key sid seq input rand
+    = mkRes [] 0 seq EndShortBuffer.
+Proof. exact session_limit_equal_overhead. Qed.
+Print Assumptions C04_session_limit_equal_overhead.
+
+(* A limit of at least 14 + 256 + 255 = 525 carries every closing notice: it is sent, decodes to
+   the notice frame and is within the limit. *)
+Theorem C04_session_closing_notice_sent :
+  forall (L : Z) (m : method) (key : list N) (sid seq closing b : N) (filler : list N) (r : N * list N),
+  mux_frameHeaderLength + 256 + mux_maxExtraLen <= limit_in_force L ->
+  (sid < 2 ^ 32)%N -> (seq < 2 ^ 64)%N -> (closing < 256)%N ->
+  Z.of_N (byte_of b) + 1 <= zlen filler ->
+  Z.of_N (fst r) < rand_bound (payload_cipher m key) ->
+  zlen (snd r) = Z.of_N (pad_len seq (fst r)) + method_tag_len m ->
+  let payload := firstn (Z.to_nat (Z.of_N (byte_of b) + 1)) filler in
+  exists msg,
+    closing_notice (make_session L) (payload_cipher m key) key sid seq closing b filler r
+      = mkRes [msg] 0 (next_seq seq) EndOk /\
+    decode m key msg = Ok (mkFrame sid seq closing payload) /\ zlen msg <= limit_in_force L.
+Proof. exact session_closing_notice_sent. Qed.
+Print Assumptions C04_session_closing_notice_sent.
+
+(* For any limit: the notice panics exactly when its filler does not fit the buffer, and when it
+   is sent it is one message within the limit (otherwise obfuscate refused it). *)
+Theorem C04_session_closing_notice_small :
+  forall (L : Z) (m : method) (key : list N) (sid seq closing b : N) (filler : list N) (r : N * list N),
+  let res := closing_notice (make_session L) (payload_cipher m key) key sid seq closing b filler r in
+  (limit_in_force L < Z.of_N (byte_of b) + 1 + mux_frameHeaderLength -> res = mkRes [] 0 seq EndPanic) /\
+  (r_end res = EndPanic -> limit_in_force L < Z.of_N (byte_of b) + 1 + mux_frameHeaderLength) /\
+  (r_end res = EndOk -> exists msg, r_wire res = [msg] /\ zlen msg <= limit_in_force L).
+Proof. exact session_closing_notice_small. Qed.
+Print Assumptions C04_session_closing_notice_small.
+
+(* The peer can take every message in one read of its deplex buffer, whatever the peer's own
+   limit, as long as the sender's limit is at most connReceiveBufferSize. *)
+Theorem C04_session_message_fits_peer_buffer :
+  forall (L Lpeer : Z) (unordered : bool) (m : method) (key : list N) (sid seq : N) (input : list N) (rand : draws),
+  limit_in_force L <= mux_connReceiveBufferSize ->
+  within (ss_recvbuf (make_session Lpeer))
+    (r_wire (stream_write (make_session L) unordered (payload_cipher m key) key sid seq input rand)).
+Proof. exact session_message_fits_peer_buffer. Qed.
+Print Assumptions C04_session_message_fits_peer_buffer.
+
+(* Generated obligations: for the limit the commands configure (client and server) and for the
+   default, the sizes a real MakeSession reported to the generator are the ones the model
+   derives; both limits carry every closing notice, fit the peer's receive buffer and one
+   TLSConn.Write. *)
+Theorem C04_session_limits_in_use :
+  make_session client_appDataMaxLength =
+    mkSizes client_appDataMaxLength mux_maxStreamUnitWrite_16401 mux_streamSendBufferSize_16401
+            mux_connReceiveBufferSize /\
+  make_session server_appDataMaxLength = make_session client_appDataMaxLength /\
+  make_session 0 =
+    mkSizes mux_default_MsgOnWireSizeLimit mux_default_maxStreamUnitWrite mux_defaultMaxOnWireSize
+            mux_connReceiveBufferSize /\
+  mux_frameHeaderLength + 256 + mux_maxExtraLen <= client_appDataMaxLength /\
+  client_appDataMaxLength <= mux_connReceiveBufferSize /\
+  mux_defaultMaxOnWireSize <= mux_connReceiveBufferSize /\
+  client_appDataMaxLength <= common_tlsconn_write_limit /\
+  mux_defaultMaxOnWireSize <= common_tlsconn_write_limit /\
+  0 < mux_frameHeaderLength /\ 0 < mux_maxExtraLen /\
+  closing_nothing = 0%N /\ (closing_stream < 256)%N /\ (closing_session < 256)%N.
+Proof. exact make_session_generated. Qed.
+Print Assumptions C04_session_limits_in_use.
+
+(* The length-only plans the correspondence driver runs agree with the model on message lengths,
+   byte count, sequence counter and outcome. *)
+Theorem C04_session_plans_agree :
+  (forall ss unordered m key sid seq input rand,
+     plan_agrees (stream_write ss unordered (payload_cipher m key) key sid seq input rand)
+                 (stream_write_plan ss unordered (method_tag_len m) seq (zlen input) (len_draws rand))) /\
+  (forall ss m key sid seq data sizes rand,
+     plan_agrees (stream_read_from ss (payload_cipher m key) key sid seq data sizes rand)
+                 (read_from_plan ss (method_tag_len m) seq (zlen data) sizes 0 (len_draws rand))) /\
+  (forall ss m key sid seq closing b filler r,
+     Z.of_N (byte_of b) + 1 <= zlen filler ->
+     plan_agrees (closing_notice ss (payload_cipher m key) key sid seq closing b filler r)
+                 (closing_notice_plan ss (method_tag_len m) seq b (fst r, zlen (snd r)))).
+Proof.
+  exact (conj stream_write_plan_spec (conj stream_read_from_plan_spec closing_notice_plan_spec)).
+Qed.
+Print Assumptions C04_session_plans_agree.
